@@ -79,6 +79,9 @@ def cases(E):
             cs.append(Case(H + "to_bytes_contract", f"table {tname}, every text of length {n}", shape_text(tname, n), target=[T + "to_bytes", T + "parse_table_line"], timeout_ms=30000))
     for n in (5, 6, 7) if thorough else (5, 6):
         cs.append(Case(H + "to_bytes_contract", f"table overlap, texts starting with [0x, length {n}", shape_escape("overlap", n), target=[T + "to_bytes"], timeout_ms=30000))
+    # a table in which `[` is itself an entry: the escape still wins at a position where both apply
+    for n in (5, 6):
+        cs.append(Case(H + "to_bytes_contract", f"table single (has an entry `[`), texts starting with [0x, length {n}", shape_escape("single", n), target=[T + "to_bytes"], timeout_ms=30000))
     for own in (False, True):
         for pk in ("top-level", "has table", "no table"):
             cs.append(Case(H + "get_table_contract", f"own table={own}, enclosing chain {pk}", shape_get_table(own, pk), target=["a816.symbols.Scope.get_table"]))
